@@ -314,9 +314,11 @@ class IntraWordFilter(Filter):
         self.possessive = re.compile(dispat, re.UNICODE)
 
         # Expression for finding case and letter-number transitions
-        lower2upper = u("[%s][%s]") % (lowercase, uppercase)
-        letter2digit = u("[%s%s][%s]") % (lowercase, uppercase, digits)
-        digit2letter = u("[%s][%s%s]") % (digits, lowercase, uppercase)
+        # Use lookahead for the second character so it can also be the first
+        # character of the next transition (e.g. "x1y")
+        lower2upper = u("[%s](?=[%s])") % (lowercase, uppercase)
+        letter2digit = u("[%s%s](?=[%s])") % (lowercase, uppercase, digits)
+        digit2letter = u("[%s](?=[%s%s])") % (digits, lowercase, uppercase)
         if splitwords and splitnums:
             splitpat = u("(%s|%s|%s)") % (lower2upper, letter2digit,
                                           digit2letter)
